@@ -148,6 +148,10 @@ class RefServer:
         if f == "BYE":
             sock.feed(wire.status_line(b"BYE", None, b"too busy"))
             return
+        if f == "BYE:REFERRAL":
+            sock.feed(wire.status_line(b"BYE", (b"REFERRAL", b"sieve://other.example.org", "quoted"), b"try the other server"))
+            self.closed = True
+            return
         if f == "NO":
             sock.feed(self.caps() + wire.status_line(b"NO", None, b"go away"))
             return
@@ -166,6 +170,10 @@ class RefServer:
             return
         if f == "BYE":
             sock.feed(wire.status_line(b"BYE", None, b"bye"))
+            return
+        if f == "BYE:REFERRAL":
+            sock.feed(wire.status_line(b"BYE", (b"REFERRAL", b"sieve://other.example.org", "quoted"), b"try the other server"))
+            self.closed = True
             return
         if f == "MALFORMED":
             sock.feed(b"* garbage\r\n")
@@ -313,6 +321,10 @@ class RefServer:
         f = self.fault(b"AUTHVERDICT")
         if f == "BYE":
             self.status(sock, b"BYE", None, b"too many failures", cmd)
+            self.closed = True
+            return
+        if f == "BYE:REFERRAL":
+            self.status(sock, b"BYE", (b"REFERRAL", b"sieve://other.example.org", "quoted"), b"try the other server", cmd)
             self.closed = True
             return
         if f == "SILENCE":
